@@ -24,6 +24,19 @@ CLAIMED = {
         engine="decisions"),
 }
 
+CLAIMED["C08"] = dict(
+    text=("TLC checks Resonaate.tla (the simulator's step loop, one action per critical section, any pending job of a batch may be "
+          "merged next) exhaustively on small networks: every completion order of the propagate/predict/reward/task-execution/update "
+          "batches and every visibility/slew/hit outcome satisfies OneRecordPerTasking, PointingReflectsTasking, StepResultIsCanonical "
+          "(order independence as an invariant) and the row invariants; each named as-coded deviation is shown to yield a counterexample. "
+          "Real scenarios (real engine, executors, registrations, sensors' collectObservations, SQLite output) are run under a "
+          "deterministic scheduler with all permutations of each batch and seeded outcome tables, and with fully real geometry; every "
+          "recorded execution is validated by TLC against TraceResonaate.tla (all invariants in every state) and the numeric step "
+          "results must equal those of the FIFO schedule."),
+    ref="5 C08", technique="TLA+ system spec Resonaate.tla + TLC exhaustive; trace validation (TraceResonaate.tla) of real scenario executions under controlled completion orders",
+    note=TRUST + "; table-driven runs stub only Sensor.canSlew/attemptObservation/predictObservation; job bodies run at submission so only merge order varies",
+    engine="resonaate-system")
+
 NOT_APPLICABLE = {
     "C13": ("an explicit TLA+ specification cannot evaluate a degree-20 spherical-harmonic gradient or analytic ephemerides; "
             "the property IS equality with an independent numerical reference, which would be differential testing, a "
